@@ -26,8 +26,8 @@ cells outside `A` are unchanged. `isolation` is the special case `A = ∅`, `low
 
 The file also contains the two concrete families used by the properties:
 `parserSys` (C13: `{`-lookup in the grammar table; unrepaired = rewrite of the
-package-level table entry, repaired = per-parse flag) and `sinkSys` (C11: the
-action closure of a sink with the error variable captured or local).
+package-level table entry, repaired = per-parse flag). The C11 models live in
+`Model/SinkClosure`, `Model/Scope`, `Model/ScopeLock`, `Model/SinkSpec`.
 -/
 namespace Ecal.Conc
 
@@ -134,6 +134,41 @@ theorem isolation (sys : Sys X V L) (hW : WritesWithin sys (fun _ => False))
     ∀ t, (run sys s sched).locals t = (alone sys t (sched.count t) s.shared (s.locals t)).2 := by
   obtain ⟨h1, h2⟩ := isolation_mod sys (fun _ => False) (fun l : L => l) hW (confined_empty sys) s sched
   exact ⟨funext fun x => h1 x (fun h => h), h2⟩
+
+/-- **Isolation relative to an invariant of the thread states**: `hW` is only needed for local
+    states satisfying `I` (all reachable ones, if `I` holds initially and is preserved). -/
+theorem isolation_inv (sys : Sys X V L) (I : L → Prop)
+    (hI : ∀ t g l, I l → I (sys.step t g l).2)
+    (hW : ∀ t g l x, I l → (sys.step t g l).1 x = g x)
+    (sched : List Nat) : ∀ (s : State X V L), (∀ t, I (s.locals t)) →
+    (run sys s sched).shared = s.shared ∧
+    ∀ t, (run sys s sched).locals t = (alone sys t (sched.count t) s.shared (s.locals t)).2 ∧
+         I ((run sys s sched).locals t) := by
+  induction sched with
+  | nil => intro s h0; exact ⟨rfl, fun t => ⟨rfl, h0 t⟩⟩
+  | cons u sched ih =>
+    intro s h0
+    simp only [run]
+    have hsh : (sys.step u s.shared (s.locals u)).1 = s.shared :=
+      funext fun x => hW u s.shared (s.locals u) x (h0 u)
+    have h0' : ∀ t, I (setLocal s.locals u (sys.step u s.shared (s.locals u)).2 t) := by
+      intro t
+      by_cases htu : t = u
+      · subst htu; simp only [setLocal, if_true]; exact hI t _ _ (h0 t)
+      · simp only [setLocal, if_neg htu]; exact h0 t
+    obtain ⟨h1, h2⟩ := ih ⟨(sys.step u s.shared (s.locals u)).1,
+      setLocal s.locals u (sys.step u s.shared (s.locals u)).2⟩ h0'
+    refine ⟨h1.trans hsh, ?_⟩
+    intro t
+    refine ⟨?_, (h2 t).2⟩
+    rw [(h2 t).1]
+    by_cases htu : t = u
+    · subst htu
+      simp [setLocal, alone]
+    · have hut : ¬ u = t := fun h => htu h.symm
+      have hc : (u :: sched).count t = sched.count t := by simp [hut]
+      rw [hc]
+      simp only [setLocal, if_neg htu, hsh]
 
 /-! ## Commuting lock-protected updates -/
 
@@ -296,7 +331,8 @@ structure ILoc where
   ids  : List Nat := []       -- instance ids of the components created so far
   deriving DecidableEq, Repr, Inhabited
 
-def counterCell : String := "instanceCounter"
+/-- the package-level variable, named as the extractor names it -/
+def counterCell : String := "interpreter.instanceCounter"
 
 /-- One step of a parse creating runtime components. `atomic = true`: `atomic.AddUint64` — the
     counter is incremented and the new value taken in one step. `atomic = false`: `counter++`
@@ -391,88 +427,6 @@ theorem idsInv_run (sched : List Nat) : ∀ s, IdsInv s → IdsInv (run (idSys t
     have := ih _ (idsInv_step s u h)
     simpa [run] using this
 
-/-! ## C11 — the action closure of a sink -/
-
-/-- what an invocation does is a function of its own event: `none` = success,
-    `some e` = failure with error `e` -/
-structure SLoc where
-  event : Nat                       -- the event this invocation was started for (its id)
-  pc    : Nat := 0
-  echo  : Option Nat := none        -- the event id as seen by the statements through `event` and a local
-  err   : Option Nat := none        -- the closure-local `err` (repaired code)
-  ret   : Option (Option Nat) := none   -- what the action returned (recorded by the engine for this invocation)
-  deriving DecidableEq, Repr, Inhabited
-
-/-- name of the variable of the enclosing `sinkRuntime.Eval` the unrepaired closure assigned -/
-def errCell : String := "err"
-
-/-- One step of an invocation of the action closure.
-    pc 0: fresh scope, `event` set (local).  pc 1: statements evaluated — outcome
-    `outcome event` stored in `err`.  pc 2: `return err`.
-    `captured` lists the variables of the enclosing function the closure assigns:
-    when it contains `err` the error variable is the shared cell, otherwise it is local. -/
-def sinkStep (captured : List String) (outcome : Nat → Option Nat)
-    (g : String → Option Nat) (l : SLoc) : (String → Option Nat) × SLoc :=
-  if l.pc = 0 then
-    if captured.contains errCell then
-      (fun x => if x = errCell then none else g x, { l with pc := 1, echo := some l.event })
-    else (g, { l with pc := 1, echo := some l.event, err := none })
-  else if l.pc = 1 then
-    if captured.contains errCell then
-      (fun x => if x = errCell then outcome l.event else g x, { l with pc := 2 })
-    else (g, { l with pc := 2, err := outcome l.event })
-  else if l.pc = 2 then
-    if captured.contains errCell then (g, { l with pc := 3, ret := some (g errCell) })
-    else (g, { l with pc := 3, ret := some l.err })
-  else (g, l)
-
-def sinkSys (captured : List String) (outcome : Nat → Option Nat) : Sys String (Option Nat) SLoc :=
-  ⟨fun _ => sinkStep captured outcome⟩
-
-/-- with no captured assignment the closure never writes the shared store -/
-theorem sinkSys_nil_readonly (outcome : Nat → Option Nat) :
-    WritesWithin (sinkSys [] outcome) (fun _ => False) := by
-  intro t g l x _
-  simp only [sinkSys, sinkStep]
-  split
-  · rfl
-  · split
-    · rfl
-    · split <;> rfl
-
-/-- a fresh invocation for event `ev` -/
-def fresh (ev : Nat) : SLoc := { event := ev }
-
-theorem alone_done (captured : List String) (outcome : Nat → Option Nat) (t n : Nat)
-    (g : String → Option Nat) (l : SLoc) (h : l.pc ≥ 3) :
-    alone (sinkSys captured outcome) t n g l = (g, l) := by
-  induction n with
-  | zero => rfl
-  | succ n ih =>
-    have h0 : ¬ l.pc = 0 := by omega
-    have h1 : ¬ l.pc = 1 := by omega
-    have h2 : ¬ l.pc = 2 := by omega
-    simp only [alone, sinkSys, sinkStep, h0, h1, h2, if_false]
-    exact ih
-
-theorem alone_fresh (outcome : Nat → Option Nat) (t n ev : Nat) (g : String → Option Nat) :
-    (alone (sinkSys [] outcome) t (n + 3) g (fresh ev)).2
-      = { event := ev, pc := 3, echo := some ev, err := outcome ev, ret := some (outcome ev) } := by
-  have : alone (sinkSys [] outcome) t (n + 3) g (fresh ev)
-      = alone (sinkSys [] outcome) t n g
-          { event := ev, pc := 3, echo := some ev, err := outcome ev, ret := some (outcome ev) } := by
-    simp [alone, sinkSys, sinkStep, fresh]
-  rw [this, alone_done _ _ _ _ _ _ (by simp)]
-
-theorem alone_never_wrong (outcome : Nat → Option Nat) (t n ev : Nat) (g : String → Option Nat) :
-    let l := (alone (sinkSys [] outcome) t n g (fresh ev)).2
-    l.event = ev ∧ (l.ret = none ∨ l.ret = some (outcome ev)) ∧ (l.echo = none ∨ l.echo = some ev) := by
-  match n with
-  | 0 => simp [alone, fresh]
-  | 1 => simp [alone, sinkSys, sinkStep, fresh]
-  | 2 => simp [alone, sinkSys, sinkStep, fresh]
-  | n + 3 => rw [alone_fresh]; simp
-
 /-! ## C11 — where the invocation scope stores `event` -/
 
 /-- Does a scope set-up sequence (constructor, stores, parent link, evaluation — in source
@@ -492,69 +446,43 @@ def setupKeepsLocal (setup : List (String × String)) (required : List String) :
   storesLocal true setup &&
   required.all fun n => setup.any fun c => (c.1 = "SetValue" || c.1 = "SetLocalValue") && c.2 = n
 
-structure ELoc where
-  event : Nat                    -- the event this invocation was started for
-  pc    : Nat := 0
-  own   : Option Nat := none     -- the variable `event` of the invocation scope
-  read1 : Option Nat := none     -- `event` as read by the statements, twice
-  read2 : Option Nat := none
-  deriving DecidableEq, Repr, Inhabited
-
-/-- the variable named `event` of the DECLARING scope (`none` = the program defines none) -/
-def eventCell : String := "event"
-
-/-- One step of an invocation. pc 0: store `event` — with `parentFirst` (the scope already has
-    its parent) the store goes to the declaring scope's variable if there is one, otherwise a
-    local variable is created. pc 1, 2: the statements read `event` (own scope first, then the
-    parent chain). -/
-def scopeStep (parentFirst : Bool) (g : String → Option Nat) (l : ELoc) : (String → Option Nat) × ELoc :=
-  if l.pc = 0 then
-    if parentFirst && (g eventCell).isSome then
-      (fun x => if x = eventCell then some l.event else g x, { l with pc := 1 })
-    else (g, { l with pc := 1, own := some l.event })
-  else if l.pc = 1 then (g, { l with pc := 2, read1 := l.own <|> g eventCell })
-  else if l.pc = 2 then (g, { l with pc := 3, read2 := l.own <|> g eventCell })
-  else (g, l)
-
-def scopeSys (parentFirst : Bool) : Sys String (Option Nat) ELoc := ⟨fun _ => scopeStep parentFirst⟩
-
-theorem scopeSys_local_readonly : WritesWithin (scopeSys false) (fun _ => False) := by
-  intro t g l x _
-  simp only [scopeSys, scopeStep]
+/-- `idSys` writes the counter cell only -/
+theorem idSys_writes_counter (atomic : Bool) : WritesWithin (idSys atomic) (· = counterCell) := by
+  intro t g l x hx
+  simp only [idSys, idStep]
   split
-  · simp
+  · rfl
   · split
-    · rfl
-    · split <;> rfl
+    · simp [hx]
+    · split
+      · rfl
+      · simp [hx]
 
-theorem scope_alone_done (pf : Bool) (t n : Nat) (g : String → Option Nat) (l : ELoc) (h : l.pc ≥ 3) :
-    alone (scopeSys pf) t n g l = (g, l) := by
-  induction n with
-  | zero => rfl
-  | succ n ih =>
-    have h0 : ¬ l.pc = 0 := by omega
-    have h1 : ¬ l.pc = 1 := by omega
-    have h2 : ¬ l.pc = 2 := by omega
-    simp only [alone, scopeSys, scopeStep, h0, h1, h2, if_false]
-    exact ih
+/-! ## Product of two systems over the same cell names -/
 
-theorem scope_alone_fresh (t n ev : Nat) (g : String → Option Nat) :
-    (alone (scopeSys false) t (n + 3) g { event := ev }).2
-      = { event := ev, pc := 3, own := some ev, read1 := some ev, read2 := some ev } := by
-  have : alone (scopeSys false) t (n + 3) g { event := ev }
-      = alone (scopeSys false) t n g
-          { event := ev, pc := 3, own := some ev, read1 := some ev, read2 := some ev } := by
-    simp [alone, scopeSys, scopeStep]
-  rw [this, scope_alone_done _ _ _ _ _ (by simp)]
+/-- both components step together; the store holds a pair per cell -/
+def prodSys {X VA VB LA LB : Type} (a : Sys X VA LA) (b : Sys X VB LB) : Sys X (VA × VB) (LA × LB) :=
+  ⟨fun t g l =>
+    let ra := a.step t (fun x => (g x).1) l.1
+    let rb := b.step t (fun x => (g x).2) l.2
+    (fun x => (ra.1 x, rb.1 x), (ra.2, rb.2))⟩
 
-theorem scope_alone_never_wrong (t n ev : Nat) (g : String → Option Nat) :
-    let l := (alone (scopeSys false) t n g { event := ev }).2
-    (l.read1 = none ∨ l.read1 = some ev) ∧ (l.read2 = none ∨ l.read2 = some ev) := by
-  match n with
-  | 0 => simp [alone]
-  | 1 => simp [alone, scopeSys, scopeStep]
-  | 2 => simp [alone, scopeSys, scopeStep]
-  | n + 3 => rw [scope_alone_fresh]; simp
+theorem prodSys_writesWithin {X VA VB LA LB : Type} (a : Sys X VA LA) (b : Sys X VB LB) (A : X → Prop)
+    (ha : WritesWithin a A) (hb : WritesWithin b A) : WritesWithin (prodSys a b) A := by
+  intro t g l x hx
+  simp only [prodSys]
+  rw [ha t _ _ x hx, hb t _ _ x hx]
+
+/-- the first component is confined w.r.t. `A` in the product if, alone, its local state depends on
+    the store only through cells outside `A` -/
+theorem prodSys_confined_fst {X VA VB LA LB : Type} (a : Sys X VA LA) (b : Sys X VB LB) (A : X → Prop)
+    (ha : ∀ t g g' l, (∀ x, ¬ A x → g x = g' x) → (a.step t g l).2 = (a.step t g' l).2) :
+    Confined (prodSys a b) A (fun l : LA × LB => l.1) := by
+  intro t g g' l l' hg hl
+  simp only at hl
+  simp only [prodSys]
+  rw [hl]
+  exact ha t _ _ _ (fun x hx => by rw [hg x hx])
 
 /-! ## An explicitly shared, lock-protected global (example system) -/
 
